@@ -4552,3 +4552,33 @@ M('C20', 'continuation-one-octet-offset-dropped', TY, "                    retur
 M('C20', 'continuation-field-left-in-body', TY, "                    part_len, size, partial = _parse_len(b, total)\n                    del b[total:total + size]\n", "                    part_len, size, partial = _parse_len(b, total)\n                    del b[total:total + 1]\n", 'C20.7')
 M('C20', 'partial-chunk-size-mask', TY, "                    return (1 << (fo & 0x1f), 1, True)", "                    return (1 << (fo & 0x0f), 1, True)", 'C20.7')
 M('C20', 'two-octet-length-threshold', TY, "                elif 224 > fo:  # >= 192 is implied\n                    dlen", "                elif 223 > fo:  # >= 192 is implied\n                    dlen", 'C20.7')
+
+# =============================================================================================== C02: copies, caller aliasing, cleartext canonicalisation (third wave)
+_SD = "            return re.subn(r'[ \\t]+(?=\\r?$)', '', self.message, flags=re.MULTILINE)[0]"
+M('C02', 'copy-hash2-from-new-object', PK, "        spkt.hash2 = copy.copy(self.hash2)\n", "        spkt.hash2 = copy.copy(spkt.hash2)\n", 'C02.5')
+M('C02', 'copy-signature-from-new-object', PK, "        spkt.signature = copy.copy(self.signature)\n", "        spkt.signature = copy.copy(spkt.signature)\n", 'C02.5')
+M('C02', 'copy-halg-defaulted', PK, "        spkt._pubalg = self._pubalg\n        spkt._halg = self._halg\n", "        spkt._pubalg = self._pubalg\n", 'C02.5')
+M('C02', 'copy-hash2-defaulted', PK, "        spkt.hash2 = copy.copy(self.hash2)\n", "", 'C02.5')
+M('C02', 'copy-sigtype-from-pubalg', PK, "        spkt._sigtype = self._sigtype\n", "        spkt._sigtype = self._pubalg\n", 'C02.5')
+M('C02', 'copy-header-fresh', PK, "        spkt = SignatureV4()\n        spkt.header = copy.copy(self.header)\n", "        spkt = SignatureV4()\n        spkt.header = copy.copy(spkt.header)\n", 'C02.5')
+T('C02', 'twin-copy-renamed-and-slice-copy', PK, "        spkt.hash2 = copy.copy(self.hash2)\n", "        left16 = self.hash2\n        spkt.hash2 = left16[:]\n")
+M('C02', 'flaglist-setter-aliases-caller-list', SS, "    def flags_list(self, val):\n        self._flags = list(val)", "    def flags_list(self, val):\n        self._flags = val", 'C02.2')
+M('C02', 'flaglist-setter-aliases-on-fast-path', SS, "    def flags_list(self, val):\n        self._flags = list(val)", "    def flags_list(self, val):\n        if self.__flags__ is not None and not all(isinstance(v, self.__flags__) for v in val):\n            val = [self.__flags__(v) for v in val]\n        self._flags = val", 'C02.2')
+M('C02', 'flaglist-setter-aliases-lists-only', SS, "    def flags_list(self, val):\n        self._flags = list(val)", "    def flags_list(self, val):\n        self._flags = val if isinstance(val, list) else list(val)", 'C02.2')
+M('C02', 'byteflag-setter-aliases-caller-set', SS, "    def flags_seq(self, val):\n        self._flags = set(val)", "    def flags_seq(self, val):\n        self._flags = val if isinstance(val, set) else set(val)", 'C02.2')
+T('C02', 'twin-flaglist-setter-comprehension-copy', SS, "    def flags_list(self, val):\n        self._flags = list(val)", "    def flags_list(self, val):\n        members = [v for v in val]\n        self._flags = members")
+T('C02', 'twin-flaglist-setter-slice-copy', SS, "    def flags_list(self, val):\n        self._flags = list(val)", "    def flags_list(self, val):\n        self._flags = list(val)[:]")
+M('C02', 'signed-view-anchored-on-newline', PGP, _SD, "            return re.subn(r'[ \\t]+(?=\\r?\\n)', '', self.message)[0]", 'C02.7')
+M('C02', 'signed-view-blank-before-newline-consumed', PGP, _SD, "            return re.subn(r'[ \\t]+\\n', '\\n', self.message)[0]", 'C02.7')
+M('C02', 'signed-view-end-of-text-only', PGP, _SD, "            return re.subn(r'[ \\t]+(?=\\r?$)', '', self.message)[0]", 'C02.7')
+M('C02', 'signed-view-spaces-only', PGP, _SD, "            return re.subn(r' +(?=\\r?$)', '', self.message, flags=re.MULTILINE)[0]", 'C02.7')
+M('C02', 'sign-cleartext-over-raw-message', PGP, "            subject = subject._signed_data\n\n        sig = PGPSignature.new(sig_type", "            subject = subject.message\n\n        sig = PGPSignature.new(sig_type", 'C02.7')
+T('C02', 'twin-signed-view-compiled-flags-inline', PGP, _SD, "            return re.sub(r'(?m)[ \\t]+(?=\\r?$)', '', self.message)")
+# C05: the same kinds (a field taken from the new object / defaulted on copy, aliasing of the received buffer)
+M('C05', 'copy-capture-from-new-object', FL, "        sp._hashed_raw = copy.copy(self._hashed_raw)\n", "        sp._hashed_raw = copy.copy(sp._hashed_raw)\n", 'C05.3')
+M('C05', 'copy-capture-only-when-unhashed-present', FL, "        sp._hashed_raw = copy.copy(self._hashed_raw)\n", "        if self._unhashed_sp:\n            sp._hashed_raw = copy.copy(self._hashed_raw)\n", 'C05.3')
+M('C05', 'sigv4-copy-subpackets-from-new-object', PK, "        spkt.subpackets = copy.copy(self.subpackets)\n", "        spkt.subpackets = copy.copy(spkt.subpackets)\n", 'C05.3')
+M('C05', 'sigv4-copy-subpackets-defaulted', PK, "        spkt.subpackets = copy.copy(self.subpackets)\n", "", 'C05.3')
+M('C05', 'pgpsig-copy-packet-fresh', PGP, "        sig |= copy.copy(self._signature)\n        return sig", "        sig |= copy.copy(sig._signature) if sig._signature is not None else self._signature\n        return sig", 'C05.3')
+M('C05', 'capture-is-view-of-consumed-buffer', FL, "        hashed_raw = packet[:2 + hl]\n        del packet[:2]", "        hashed_raw = packet\n        del packet[:2]", 'C05.1')
+M('C05', 'replay-aliases-then-copies-on-second-call', FL, "            return bytearray(self._hashed_raw)\n", "            raw, self._hashed_raw = self._hashed_raw, bytearray(self._hashed_raw)\n            return raw\n", 'C05.2')
